@@ -68,6 +68,11 @@ fn def_path(tcx: TyCtxt<'_>, did: DefId) -> String {
     ty::print::with_no_trimmed_paths!(tcx.def_path_str(did))
 }
 
+/// Canonical, crate-independent identity of a definition (real module path, impl blocks numbered).
+fn def_id_str(tcx: TyCtxt<'_>, did: DefId) -> String {
+    format!("{}{}", tcx.crate_name(did.krate), tcx.def_path(did).to_string_no_crate_verbose())
+}
+
 /// ADT def path if the (peeled) type is an ADT.
 fn ty_adt<'tcx>(tcx: TyCtxt<'tcx>, ty: Ty<'tcx>) -> Option<String> {
     match ty.peel_refs().kind() {
@@ -412,10 +417,12 @@ fn rvalue_json<'tcx>(tcx: TyCtxt<'tcx>, owner: DefId, body: &Body<'tcx>, rv: &Rv
                 AggregateKind::Closure(did, _) => {
                     o.push(("ak", J::s("closure")));
                     o.push(("def", J::s(def_path(tcx, *did))));
+                    o.push(("def_id", J::s(def_id_str(tcx, *did))));
                 }
                 AggregateKind::Coroutine(did, _) => {
                     o.push(("ak", J::s("coroutine")));
                     o.push(("def", J::s(def_path(tcx, *did))));
+                    o.push(("def_id", J::s(def_id_str(tcx, *did))));
                 }
                 AggregateKind::CoroutineClosure(did, _) => {
                     o.push(("ak", J::s("coroutine_closure")));
@@ -542,6 +549,7 @@ fn terminator_json<'tcx>(tcx: TyCtxt<'tcx>, owner: LocalDefId, body: &Body<'tcx>
             o.push(("func", opj(func)));
             if let Some((did, gargs)) = func.const_fn_def() {
                 o.push(("callee", J::s(def_path(tcx, did))));
+                o.push(("callee_id", J::s(def_id_str(tcx, did))));
                 o.push(("callee_full", J::s(ty::print::with_no_trimmed_paths!(tcx.def_path_str_with_args(did, gargs)))));
                 o.push(("callee_item", item_container(tcx, did)));
                 let gs: Vec<J> = gargs.iter().map(|a| J::s(ty::print::with_no_trimmed_paths!(format!("{}", a)))).collect();
@@ -551,6 +559,7 @@ fn terminator_json<'tcx>(tcx: TyCtxt<'tcx>, owner: LocalDefId, body: &Body<'tcx>
                     Ok(Some(inst)) => {
                         let rd = inst.def_id();
                         o.push(("resolved", J::s(def_path(tcx, rd))));
+                        o.push(("resolved_id", J::s(def_id_str(tcx, rd))));
                         o.push(("resolved_full", J::s(ty::print::with_no_trimmed_paths!(tcx.def_path_str_with_args(rd, inst.args)))));
                         o.push(("resolved_item", item_container(tcx, rd)));
                         o.push(("resolved_kind", J::s(match inst.def {
@@ -617,6 +626,7 @@ fn body_json<'tcx>(tcx: TyCtxt<'tcx>, def: LocalDefId, body: &Body<'tcx>) -> J {
     let dk = tcx.def_kind(did);
     let mut o: Vec<(&'static str, J)> = vec![
         ("path", J::s(def_path(tcx, did))),
+        ("id", J::s(def_id_str(tcx, did))),
         ("crate", J::s(tcx.crate_name(LOCAL_CRATE).to_string())),
         ("def_kind", J::s(format!("{:?}", dk))),
         ("span", span_obj(tcx, body.span)),
@@ -729,6 +739,7 @@ fn my_mir_promoted<'tcx>(
     if std::env::var_os("MIRFACTS_OUT").is_some() {
         let _g1 = ty::print::CrateNamePrefixGuard::new();
         let _g2 = ty::print::NoTrimmedGuard::new();
+        let _g3 = ty::print::NoVisibleGuard::new();
         let s = {
             let body = r.0.borrow();
             let mut j = body_json(tcx, def, &body);
@@ -792,6 +803,7 @@ fn adts_json<'tcx>(tcx: TyCtxt<'tcx>) -> Vec<J> {
         }
         out.push(J::obj(vec![
             ("path", J::s(def_path(tcx, did))),
+            ("id", J::s(def_id_str(tcx, did))),
             ("kind", J::s(format!("{:?}", dk))),
             ("pub", J::Bool(tcx.visibility(did).is_public())),
             ("repr", J::s(format!("{:?}", adt.repr()))),
@@ -914,6 +926,7 @@ impl Callbacks for Cb {
         };
         let _g1 = ty::print::CrateNamePrefixGuard::new();
         let _g2 = ty::print::NoTrimmedGuard::new();
+        let _g3 = ty::print::NoVisibleGuard::new();
         let krate = tcx.crate_name(LOCAL_CRATE).to_string();
         let crate_types: Vec<J> = tcx.crate_types().iter().map(|c| J::s(format!("{:?}", c))).collect();
         let adts = adts_json(tcx);
